@@ -15,7 +15,7 @@ from .. import mpsutil as mu
 from .. import netgen as ng
 from .. import pitutil as pu
 from .. import snutil as su
-from ..core import Check, Part, Result, must
+from ..core import Check, Part, Result, must, safe_grad
 from .c10 import check_theta, mps_must_argmax, sn_must_argmax
 
 ALPHA = {
